@@ -80,6 +80,30 @@ type Case struct {
 
 type pair struct{ k, v int }
 
+// logged wraps a predicate so that the (index|key, value) pairs it is
+// consulted with are recorded.  The enumerable functions are loops over the
+// container's own iterator ("over that sequence"): every function must consult
+// its callback with a prefix of the iterator sequence — each pair at most once,
+// in iterator order — and Select / Map (which cannot stop early) with all of it.
+func logged(p func(k, v int) bool, log *[]pair) func(k, v int) bool {
+	return func(k, v int) bool {
+		*log = append(*log, pair{k, v})
+		return p(k, v)
+	}
+}
+
+func prefixOf(log, seq []pair, whole bool) bool {
+	if len(log) > len(seq) || whole && len(log) != len(seq) {
+		return false
+	}
+	for i := range log {
+		if log[i] != seq[i] {
+			return false
+		}
+	}
+	return true
+}
+
 // ---------------------------------------------------------------------------
 // index-based kinds
 
@@ -194,14 +218,26 @@ func runIdx[S enumIdx[S]](c Case, recv S, it func(S) []pair) (pbt.Info, error) {
 			wantAll = false
 		}
 	}
-	if got := recv.Any(p); got != wantAny {
+	var callLog []pair
+	if got := recv.Any(logged(p, &callLog)); got != wantAny {
 		return info, fmt.Errorf("%s: Any(%+v)=%v over %v, want %v", c.Kind, c.P, got, seq, wantAny)
 	}
-	if got := recv.All(p); got != wantAll {
+	if !prefixOf(callLog, seq, false) {
+		return info, fmt.Errorf("%s: Any consulted its predicate with %v, not a prefix of the iterator sequence %v", c.Kind, callLog, seq)
+	}
+	callLog = nil
+	if got := recv.All(logged(p, &callLog)); got != wantAll {
 		return info, fmt.Errorf("%s: All(%+v)=%v over %v, want %v", c.Kind, c.P, got, seq, wantAll)
 	}
-	if gi, gv := recv.Find(p); gi != wantI || gv != wantV {
+	if !prefixOf(callLog, seq, false) {
+		return info, fmt.Errorf("%s: All consulted its predicate with %v, not a prefix of the iterator sequence %v", c.Kind, callLog, seq)
+	}
+	callLog = nil
+	if gi, gv := recv.Find(logged(p, &callLog)); gi != wantI || gv != wantV {
 		return info, fmt.Errorf("%s: Find(%+v)=(%d,%d) over %v, want (%d,%d)", c.Kind, c.P, gi, gv, seq, wantI, wantV)
+	}
+	if !prefixOf(callLog, seq, false) {
+		return info, fmt.Errorf("%s: Find consulted its predicate with %v, not a prefix of the iterator sequence %v", c.Kind, callLog, seq)
 	}
 	if err := unchanged("Any/All/Find"); err != nil {
 		return info, err
@@ -219,7 +255,11 @@ func runIdx[S enumIdx[S]](c Case, recv S, it func(S) []pair) (pbt.Info, error) {
 			selStream = append(selStream, e.v)
 		}
 	}
-	sel := recv.Select(p)
+	callLog = nil
+	sel := recv.Select(logged(p, &callLog))
+	if !prefixOf(callLog, seq, true) {
+		return info, fmt.Errorf("%s: Select consulted its predicate with %v, the iterator sequence is %v (each pair once, in order)", c.Kind, callLog, seq)
+	}
 	if any(sel) == any(recv) {
 		return info, fmt.Errorf("%s: Select returned the receiver itself", c.Kind)
 	}
@@ -231,7 +271,11 @@ func runIdx[S enumIdx[S]](c Case, recv S, it func(S) []pair) (pbt.Info, error) {
 	}
 	// Map
 	var mapStream []int
-	mapped := recv.Map(func(i, v int) int { _, nv := c.M.kv(i, v); return nv })
+	callLog = nil
+	mapped := recv.Map(func(i, v int) int { callLog = append(callLog, pair{i, v}); _, nv := c.M.kv(i, v); return nv })
+	if !prefixOf(callLog, seq, true) {
+		return info, fmt.Errorf("%s: Map consulted its function with %v, the iterator sequence is %v (each pair once, in order)", c.Kind, callLog, seq)
+	}
 	for _, e := range seq {
 		_, nv := c.M.kv(e.k, e.v)
 		mapStream = append(mapStream, nv)
@@ -399,14 +443,26 @@ func runKey[S enumKey[S]](c Case, recv S, it func(S) []pair) (pbt.Info, error) {
 			wantAll = false
 		}
 	}
-	if got := recv.Any(p); got != wantAny {
+	var callLog []pair
+	if got := recv.Any(logged(p, &callLog)); got != wantAny {
 		return info, fmt.Errorf("%s: Any(%+v)=%v over %v, want %v", c.Kind, c.P, got, seq, wantAny)
 	}
-	if got := recv.All(p); got != wantAll {
+	if !prefixOf(callLog, seq, false) {
+		return info, fmt.Errorf("%s: Any consulted its predicate with %v, not a prefix of the iterator sequence %v", c.Kind, callLog, seq)
+	}
+	callLog = nil
+	if got := recv.All(logged(p, &callLog)); got != wantAll {
 		return info, fmt.Errorf("%s: All(%+v)=%v over %v, want %v", c.Kind, c.P, got, seq, wantAll)
 	}
-	if gk, gv := recv.Find(p); gk != wantK || gv != wantV {
+	if !prefixOf(callLog, seq, false) {
+		return info, fmt.Errorf("%s: All consulted its predicate with %v, not a prefix of the iterator sequence %v", c.Kind, callLog, seq)
+	}
+	callLog = nil
+	if gk, gv := recv.Find(logged(p, &callLog)); gk != wantK || gv != wantV {
 		return info, fmt.Errorf("%s: Find(%+v)=(%d,%d) over %v, want (%d,%d)", c.Kind, c.P, gk, gv, seq, wantK, wantV)
+	}
+	if !prefixOf(callLog, seq, false) {
+		return info, fmt.Errorf("%s: Find consulted its predicate with %v, not a prefix of the iterator sequence %v", c.Kind, callLog, seq)
 	}
 	if err := unchanged("Each/Any/All/Find"); err != nil {
 		return info, err
@@ -419,7 +475,11 @@ func runKey[S enumKey[S]](c Case, recv S, it func(S) []pair) (pbt.Info, error) {
 		nk, nv := c.M.kv(e.k, e.v)
 		mapStream = append(mapStream, pair{nk, nv})
 	}
-	sel := recv.Select(p)
+	callLog = nil
+	sel := recv.Select(logged(p, &callLog))
+	if !prefixOf(callLog, seq, true) {
+		return info, fmt.Errorf("%s: Select consulted its predicate with %v, the iterator sequence is %v (each pair once, in order)", c.Kind, callLog, seq)
+	}
 	if any(sel) == any(recv) {
 		return info, fmt.Errorf("%s: Select returned the receiver itself", c.Kind)
 	}
@@ -429,7 +489,11 @@ func runKey[S enumKey[S]](c Case, recv S, it func(S) []pair) (pbt.Info, error) {
 	if err := unchanged("Select"); err != nil {
 		return info, err
 	}
-	mapped := recv.Map(func(k, v int) (int, int) { return c.M.kv(k, v) })
+	callLog = nil
+	mapped := recv.Map(func(k, v int) (int, int) { callLog = append(callLog, pair{k, v}); return c.M.kv(k, v) })
+	if !prefixOf(callLog, seq, true) {
+		return info, fmt.Errorf("%s: Map consulted its function with %v, the iterator sequence is %v (each pair once, in order)", c.Kind, callLog, seq)
+	}
 	if any(mapped) == any(recv) {
 		return info, fmt.Errorf("%s: Map returned the receiver itself", c.Kind)
 	}
